@@ -30,7 +30,7 @@ P, W, F = "parser-state-explorer", "wire-explorer", "filterset-explorer"
 BUILT = {
     "C01": _b(P, "explicit-state BFS over token words on the real parser vs reference PDA + exhaustive grammar-directed products and single-token edits",
               "every word up to the scenario depth over alphabets covering every token class, command and tag (with and without require), every nested test "
-              "expression to depth 3/4, every tag subset and order of every command, every single-token edit of the valid forms, every tag any command knows in tag position of every other command, every comment body up to "
+              "expression to depth 3/4, every tag subset and order of every command, every single-token edit of the valid forms, every tag any command knows in tag position of every other command, string tokens and junk made of raw non-UTF-8 octets, every comment body up to "
               "a length, every require structure (one or two require commands, repeated / padded / case-variant / unknown names) before each "
               "extension use, scripts of n trivial commands around every power of two and ten in size, every single-byte edit of a 15-script corpus, all under several layouts, is executed on the real Parser and judged by an independent RFC 5228 recogniser + frozen table; the "
               "state abstraction is audited by an undeduplicated one-step bisimulation run", _PARSER_NOTE, "3 C01, 8"),
@@ -61,7 +61,7 @@ BUILT = {
               "parser and on one that has just accepted the full script, and must be rejected with the exact 'extension not loaded' message", _PARSER_NOTE, "3 C07"),
     "C08": _b(W, "exhaustive product of operations x hostile argument strings + sweep of every argument length; strict RFC 5804 command parser on the captured bytes",
               "every string up to the length bound over a hostile alphabet plus look-alikes in every argument position (incl. unencodable lone surrogates: refused with nothing written) and every argument length in "
-              "0..9000/70000, plain and with characters that need escaping; pairs of calls in one process (a body, then a name equal to its literal encoding, and the reverse), refused calls followed by another command, every operation after a virtual idle time of a minute / hour / day / decades (clock seam); the bytes written must parse as exactly one command of the intended verb decoding to the caller's values", _WIRE_NOTE, "3 C08"),
+              "0..9000/70000, plain and with characters that need escaping; pairs of calls in one process (a body, then a name equal to its literal encoding, and the reverse), refused calls followed by another command, every operation refused with every registered response code, every operation after a virtual idle time of a minute / hour / day / decades (clock seam); the bytes written must parse as exactly one command of the intended verb decoding to the caller's values", _WIRE_NOTE, "3 C08"),
     "C09": _b(W, "exhaustive product of operations x status reply shapes, ordered pairs of replies on one client, single NO/BYE fault at each step of multi-step operations",
               "every operation x every status reply shape; every pair of shapes on the same client; status lines at the size limits of their parts under segmentation; NO/BYE at each step of connect (with/without STARTTLS) and "
               "emulated rename; result, errcode, errmsg, unread bytes and exception class are judged against the reply", _WIRE_NOTE, "3 C09"),
@@ -70,14 +70,14 @@ BUILT = {
               "faults, TLS wrap failure, capability set and OK-line form; no script verb without AUTHENTICATE OK on that connection, no AUTHENTICATE before "
               "TLS, mechanism from the post-TLS list", _WIRE_NOTE, "3 C10"),
     "C11": _b(F, "explicit-state BFS over editing histories + exhaustive product of names/descriptions x marker pairs; save/load differential",
-              "every reachable set (history depth bound; loaded through a fresh and through a just-failed Parser) and every name/description up to the length bound under 4 marker pairs (one non-ASCII) is "
+              "every reachable set (history depth bound; loaded through a fresh Parser, a just-failed Parser and from a file with parse_file) and every name/description up to the length bound under 4 marker pairs (one non-ASCII) is "
               "rendered, parsed, reloaded and compared; the reloaded rendering must be a fixed point", _FACTORY_NOTE, "3 C11"),
     "C12": _b(F, "all operation sequences up to a bound without dedup + BFS with dedup over the real FiltersSet vs reference list model",
-              "every sequence of <= 3/4 of ~95 events (str and bytes names, canonically equivalent names, contents that are bare parsed actions, definitions refused while they are built) and a deduplicated BFS to depth 6/12, the same events on a set sharing its parse result with an untouched twin; after every event return value, order, "
+              "every sequence of <= 3/4 of ~95 events (str and bytes names, canonically equivalent names, contents that are bare parsed actions, a filter's own content under a new name, definitions refused while they are built) and a deduplicated BFS to depth 6/12, the same events on a set sharing its parse result with an untouched twin; after every event return value, order, "
               "flags, is_filter_disabled, filter_exists, wrapper structure and getfilter content are compared with the list model", _FACTORY_NOTE, "3 C12"),
     "C13": _b(P, "exhaustive histories over an object pool; differential vs pristine forked interpreters",
               "every history of <= 3/4 events on two reused parsers, fresh parsers and two FiltersSets (incl. from_parser_result on the shared parser, "
-              "mixed-case tags, parse_file, commands derived from concrete built-ins registered in every process); trees handed out earlier are read again after the last event; each outcome is compared with the projection onto the same object run in a freshly forked pristine interpreter",
+              "mixed-case tags, parse_file, commands derived from concrete built-ins registered in every process); trees handed out earlier are read again after the last event; every cross-table tag probe parsed after the whole language was used in the process (confirmed against a fresh interpreter); each outcome is compared with the projection onto the same object run in a freshly forked pristine interpreter",
               _FACTORY_NOTE, "3 C13"),
     "C14": _b(W, "exhaustive product of initial stores x name sets x fault placements x bodies against an executable reference server; store-level invariant",
               "19 initial stores x 7 bodies x 3 name sets (ASCII, NFC/NFD twins, case twins) x every single and pair of faults on the five verbs of the "
